@@ -49,6 +49,10 @@ type Case struct {
 	Min int    `json:"min"`
 	// the caller's Validate (get): 0 none given (accept all), 1 reject malformed, 2 reject malformed and empty, 3 reject everything
 	VMode int `json:"vmode"`
+	// length of the get / put key in bytes (a key shorter than a PeerID makes distinct peers tie); 0 means 32
+	KLen int `json:"klen"`
+	// adv: dist[m] is the distance class of node m (the identity when the key has 32 bytes)
+	Dist []int `json:"dist"`
 	// adv
 	N     int         `json:"n"`
 	Init  []int       `json:"init"`
@@ -89,6 +93,8 @@ type Event struct {
 	Op       string      `json:"op"`
 	Min      int         `json:"min"`
 	VMode    int         `json:"vmode"`
+	KLen     int         `json:"klen"`
+	Dist     []int       `json:"dist"` // distance class of every model id 0..universe-1
 	Init     []int       `json:"init"`
 	Topo     []Responder `json:"topo"`
 	Contacts []int       `json:"contacts"`
@@ -137,7 +143,8 @@ type rawResult struct {
 
 // ops is the per-case behaviour of the network.
 type ops struct {
-	target   p2p.PeerID // findnode / join target; get / put key
+	target   p2p.PeerID // findnode / join target
+	key      []byte     // get / put key
 	initial  []kademlia.NodeInfo
 	findNode func(dst kademlia.NodeInfo, req kademlia.FindNodeReq) (kademlia.FindNodeRes, error)
 	get      func(dst kademlia.NodeInfo, req kademlia.GetReq) (kademlia.GetRes, error)
@@ -175,7 +182,7 @@ func runOp(op string, min int, w *world, o *ops) (rr rawResult) {
 		})
 	case "get":
 		res, err := kademlia.DHTGet(kademlia.DHTGetParams{
-			Key: append([]byte{}, o.target[:]...), Initial: o.initial, Validate: o.validV,
+			Key: append([]byte{}, o.key...), Initial: o.initial, Validate: o.validV,
 			Ask: func(dst kademlia.NodeInfo, req kademlia.GetReq) (kademlia.GetRes, error) {
 				if !w.contact(dst.ID) {
 					return kademlia.GetRes{}, errStepBound
@@ -200,7 +207,7 @@ func runOp(op string, min int, w *world, o *ops) (rr rawResult) {
 		}
 	case "put":
 		res, err := kademlia.DHTPut(kademlia.DHTPutParams{
-			Initial: o.initial, Key: append([]byte{}, o.target[:]...), Value: []byte("ok:put"), TTL: time.Hour, MinAccepted: min,
+			Initial: o.initial, Key: append([]byte{}, o.key...), Value: []byte("ok:put"), TTL: time.Hour, MinAccepted: min,
 			Ask: func(dst kademlia.NodeInfo, req kademlia.PutReq) (kademlia.PutRes, error) {
 				if !w.contact(dst.ID) {
 					return kademlia.PutRes{}, errStepBound
@@ -249,48 +256,60 @@ func guarded(op string, min int, w *world, o *ops, patience time.Duration) (rr r
 // family "adv"
 
 type embedding struct {
-	t   p2p.PeerID // the target / key
-	pos int        // the byte that carries the model id
+	t    p2p.PeerID // the target; the key is its first klen bytes
+	pos  int        // the byte (inside the key) that carries the distance class
+	klen int
+	ids  []p2p.PeerID
+	back map[p2p.PeerID]int
 }
 
-func newEmbedding(kind string, seed int64) embedding {
+// newEmbedding maps model node m to a PeerID whose XOR distance to the key is dist[m] (in byte pos) and,
+// when the key is shorter than the id, whose last byte (outside the key) tells tied nodes apart.
+func newEmbedding(kind string, seed int64, klen int, dist []int) embedding {
 	rng := rand.New(rand.NewSource(seed))
-	var e embedding
+	if klen <= 0 || klen > 32 {
+		klen = 32
+	}
+	e := embedding{klen: klen, back: map[p2p.PeerID]int{}}
 	for i := range e.t {
 		e.t[i] = byte(1 + rng.Intn(255)) // no zero bytes: no PeerID of the case is the zero id
 	}
 	switch kind {
 	case "lo":
-		e.pos = 31
+		e.pos = klen - 1
 	case "mid":
-		e.pos = 15
-	default: // "hi": the zero PeerID is nearer to the key than every node but node 0
+		e.pos = klen / 2
+	default: // "hi": the zero PeerID is nearer to the key than every node at a distance > 0
 		e.pos = 0
-		e.t[0] = 0
+		if klen > 1 {
+			e.t[0] = 0
+		}
+	}
+	for m, d := range dist {
+		p := e.t
+		p[e.pos] ^= byte(d)
+		if klen < 32 {
+			p[31] ^= byte(m + 1)
+		}
+		if _, dup := e.back[p]; dup {
+			panic("embedding: two model nodes share a PeerID (a 32-byte key needs an injective dist)")
+		}
+		e.ids = append(e.ids, p)
+		e.back[p] = m
 	}
 	return e
 }
 
-func (e embedding) id(m int) p2p.PeerID {
-	p := e.t
-	p[e.pos] ^= byte(m)
-	return p
-}
+func (e embedding) id(m int) p2p.PeerID { return e.ids[m] }
 
 func (e embedding) model(p p2p.PeerID, n int) int {
 	if p.IsZero() {
 		return none
 	}
-	for i := range p {
-		if i != e.pos && p[i] != e.t[i] {
-			return unknown
-		}
+	if m, ok := e.back[p]; ok {
+		return m
 	}
-	m := int(p[e.pos] ^ e.t[e.pos])
-	if m >= n {
-		return unknown
-	}
-	return m
+	return unknown
 }
 
 func valueOf(m int, class int) []byte {
@@ -348,7 +367,14 @@ func runAdv(c *Case, patience time.Duration) Event {
 	if c.N > 200 {
 		panic("universe too large for the one-byte embedding")
 	}
-	e := newEmbedding(c.Emb, c.TSeed)
+	dist := c.Dist
+	if len(dist) != c.N {
+		dist = make([]int, c.N)
+		for m := range dist {
+			dist[m] = m
+		}
+	}
+	e := newEmbedding(c.Emb, c.TSeed, c.KLen, dist)
 	topo := make(map[int]Responder, len(c.Topo))
 	for _, r := range c.Topo {
 		topo[r.ID] = r
@@ -375,6 +401,7 @@ func runAdv(c *Case, patience time.Duration) Event {
 	seen := map[p2p.PeerID]bool{}
 	o := &ops{
 		target:  e.t,
+		key:     e.t[:e.klen],
 		initial: infos(c.Init),
 		findNode: func(dst kademlia.NodeInfo, req kademlia.FindNodeReq) (kademlia.FindNodeRes, error) {
 			r, err := lookup(dst)
@@ -411,7 +438,7 @@ func runAdv(c *Case, patience time.Duration) Event {
 		},
 	}
 	rr, panicked, what, hung := guarded(c.Op, c.Min, w, o, patience)
-	ev := Event{Ev: "case", ID: c.ID, Fam: c.Fam, Op: c.Op, Min: c.Min, VMode: c.VMode, Init: append([]int{}, c.Init...),
+	ev := Event{Ev: "case", ID: c.ID, Fam: c.Fam, Op: c.Op, Min: c.Min, VMode: c.VMode, KLen: e.klen, Dist: dist, Init: append([]int{}, c.Init...),
 		Topo: make([]Responder, 0, len(c.Topo)), Contacts: []int{}, Panic: panicked, PanicV: what, Universe: c.N}
 	for _, r := range c.Topo {
 		r.Adv = true
@@ -476,10 +503,32 @@ func runHonest(c *Case, patience time.Duration) Event {
 	if size < 2 {
 		size = 2
 	}
+	// get / put with a key shorter than a PeerID: only the first klen bytes count for the distance, and
+	// the members' ids are drawn so that many of them tie (they share those bytes up to two of them)
+	klen := 32
+	if (c.Op == "get" || c.Op == "put") && c.KLen > 0 && c.KLen < 32 {
+		klen = c.KLen
+	}
+	base := randID(rng)
+	alphabet := []byte{byte(rng.Intn(256)), byte(rng.Intn(256)), byte(rng.Intn(256)), byte(rng.Intn(256))}
+	memberID := func() p2p.PeerID {
+		id := randID(rng)
+		if klen < 32 {
+			copy(id[:klen], base[:klen])
+			id[klen-1] = alphabet[rng.Intn(4)]
+			if klen >= 2 {
+				id[0] = alphabet[rng.Intn(2)]
+			}
+		}
+		return id
+	}
 	members := make([]*member, size)
 	byID := map[p2p.PeerID]*member{}
 	for i := range members {
-		id := randID(rng)
+		id := memberID()
+		for byID[id] != nil {
+			id = memberID()
+		}
 		members[i] = &member{id: id, node: kademlia.NewDHTNode(kademlia.DHTNodeParams{LocalID: id, PeerCacheSize: c.Peers, DataCacheSize: c.Data})}
 		byID[id] = members[i]
 	}
@@ -506,9 +555,19 @@ func runHonest(c *Case, patience time.Duration) Event {
 		key = members[perm[1+rng.Intn(size-1)]].id
 	default:
 		key = randID(rng)
+		if klen < 32 {
+			copy(key[:klen], base[:klen])
+			key[klen-1] = byte(rng.Intn(256))
+		}
 	}
+	kb := key[:klen]
 	byDist := func(ids []p2p.PeerID) {
-		sort.Slice(ids, func(i, j int) bool { return kademlia.DistanceLt(key[:], ids[i][:], ids[j][:]) })
+		sort.Slice(ids, func(i, j int) bool {
+			if c := kademlia.DistanceCmp(kb, ids[i][:], ids[j][:]); c != 0 {
+				return c < 0
+			}
+			return bytes.Compare(ids[i][:], ids[j][:]) < 0
+		})
 	}
 	if c.Op == "get" {
 		ids := make([]p2p.PeerID, 0, size)
@@ -517,14 +576,14 @@ func runHonest(c *Case, patience time.Duration) Event {
 		}
 		byDist(ids)
 		for i := 0; i < c.Holders && i < len(ids); i++ {
-			byID[ids[i]].node.Put(key[:], []byte("ok:stored"), time.Hour)
+			byID[ids[i]].node.Put(kb, []byte("ok:stored"), time.Hour)
 		}
 		for i := 0; i < c.Poison; i++ {
 			poison := []byte("bad:stored")
 			if rng.Intn(2) == 0 {
 				poison = []byte{} // a present but empty entry
 			}
-			members[rng.Intn(size)].node.Put(key[:], poison, time.Hour)
+			members[rng.Intn(size)].node.Put(kb, poison, time.Hour)
 		}
 	}
 	if c.Op == "put" {
@@ -535,7 +594,7 @@ func runHonest(c *Case, patience time.Duration) Event {
 			}
 		}
 	}
-	initial := src.node.ListNodeInfos(key[:], c.NInit)
+	initial := src.node.ListNodeInfos(kb, c.NInit)
 	if c.Dup && len(initial) > 0 {
 		initial = append(initial, initial[0])
 	}
@@ -596,6 +655,7 @@ func runHonest(c *Case, patience time.Duration) Event {
 	seen := map[p2p.PeerID]bool{}
 	o := &ops{
 		target:  key,
+		key:     kb,
 		initial: initial,
 		findNode: func(dst kademlia.NodeInfo, req kademlia.FindNodeReq) (kademlia.FindNodeRes, error) {
 			m, err := reach(dst)
@@ -678,14 +738,28 @@ func runHonest(c *Case, patience time.Duration) Event {
 	}
 	all := make([]p2p.PeerID, 0, len(involved))
 	for id := range involved {
-		if id != key {
+		if klen < 32 || id != key {
 			all = append(all, id)
 		}
 	}
 	byDist(all)
-	rank := map[p2p.PeerID]int{key: 0}
+	// model id 0 is the peer whose id equals a 32-byte target; the others are numbered by distance, and
+	// dist[m] is the class of m's distance (peers that tie under a short key share it)
+	rank := map[p2p.PeerID]int{}
+	if klen == 32 {
+		rank[key] = 0
+	}
+	dist := []int{0}
 	for i, id := range all {
 		rank[id] = i + 1
+		d := 1
+		if i > 0 {
+			d = dist[i]
+			if kademlia.DistanceCmp(kb, all[i-1][:], id[:]) != 0 {
+				d++
+			}
+		}
+		dist = append(dist, d)
 	}
 	model := func(id p2p.PeerID) int {
 		if id.IsZero() {
@@ -703,7 +777,7 @@ func runHonest(c *Case, patience time.Duration) Event {
 		}
 		return out
 	}
-	ev := Event{Ev: "case", ID: c.ID, Fam: c.Fam, Op: c.Op, Min: c.Min, VMode: c.VMode, Init: models(initIDs), Topo: []Responder{},
+	ev := Event{Ev: "case", ID: c.ID, Fam: c.Fam, Op: c.Op, Min: c.Min, VMode: c.VMode, KLen: klen, Dist: dist, Init: models(initIDs), Topo: []Responder{},
 		Contacts: models(contacts), Panic: panicked, PanicV: what, NonTerm: nonterm || hung, Universe: len(all) + 1}
 	done := map[p2p.PeerID]bool{}
 	for _, id := range contacts {
